@@ -67,8 +67,8 @@ def structures(tier):
     for c in sorted(cuts):
         sts.append({'kind': 'traces', 'cut': c})
     # default options (colour on) on a stream in which a process is renamed between two traces
-    nr = 288 + 32 + 2 + 64 * 7
-    for i in range(8):
+    nr = 288 + 32 + 2 + 64 * 10
+    for i in range(11):
         for d in (0, 13):
             c = base + 64 * i + d
             if c <= nr:
@@ -201,6 +201,10 @@ def run_rename(ctx, st):
             K.pack_rec(1003, [7, 0, 0, 0], T, ex_d), K.pack_rec_data(1004, b'newimage' + bytes(24), T, ex_s),
             K.pack_rec(1005, [0, 0, 0, 0], T, gp | 1), K.pack_rec(1006, [0, ctx.int('ret1'), 0, 0], T, gp | 2),
             K.pack_rec(1007, [0, 0, 0, 0], T, gp | 1)]
+    # a global string split over three records: a dump cut inside it reports nothing of it
+    gs = by_name['TRACE_STRING_GLOBAL']
+    for j, (q, chunk) in enumerate(K.chunk_string(b'/System/Library/Frameworks/Foundation.framework/F', 5, 77)):
+        recs.append(K.pack_rec_data(1008 + j, chunk, T, gs | q))
     data = K.v2_file([(T, 7, b'xpcproxy')], 2, recs)
 
     def lines(d, color):
